@@ -14,9 +14,10 @@ Transcribes, as they are:
 The page size is the extern `syscall.Getpagesize() = 0x1000` of that translation (the probe asserts it).
 
 Kernel specification (trusted, DESIGN §5): `mprotect(p, pageSize, prot)` on a mapped page sets exactly that page's
-protection and succeeds; on an unmapped page it fails (ENOMEM) and changes nothing.  A store to a page without `w`
-faults.  The fall-back `writeTo` of `mwrite_prot.go:3008` (taken only when the RWX `mprotect` is refused) is outside
-the model: `writeTo` reports `Outcome.fallback` with the state reached so far.
+protection and succeeds; on an unmapped page it fails (ENOMEM) and changes nothing; under a W^X policy (`denyWX`: SELinux
+execmem, macOS hardened runtime; emulated in the probe with a seccomp filter) a request for write+execute on a mapped page
+fails (EACCES) and changes nothing.  A store to a page without `w` faults.  The fall-back `writeTo` of
+`mwrite_prot.go:3008` (taken when the RWX `mprotect` is refused) is modelled too (`fallbackWrite`).
 -/
 namespace Mem
 
@@ -34,6 +35,8 @@ structure Perm where
 def RX : Perm := ⟨true, false, true⟩
 /-- `syscall.PROT_READ|syscall.PROT_WRITE|syscall.PROT_EXEC` (mwrite_amd64.go:24) -/
 def RWX : Perm := ⟨true, true, true⟩
+/-- `syscall.PROT_READ|syscall.PROT_WRITE` (mwrite_prot.go:3013, the fall-back) -/
+def RW : Perm := ⟨true, true, false⟩
 
 /-- `syscall.Getpagesize()` as a number (the same extern the translator uses for `Gen.Page.PageStart`) -/
 def pageSize : Nat := 4096
@@ -42,6 +45,8 @@ def pageSize : Nat := 4096
 structure State where
   mem : Addr → Byte
   perm : Addr → Option Perm
+  /-- kernel policy: a request for write+execute is refused (EACCES) -/
+  denyWX : Bool := false
 
 /-- the page (start address) containing `a` — goom's own `PageStart`, regenerated from the source -/
 def pageOf (a : Addr) : Addr := Gen.Page.PageStart a
@@ -70,6 +75,7 @@ inductive Step where
 
 inductive Err where
   | enomem (p : Addr)     -- mprotect of an unmapped page
+  | eacces (p : Addr)     -- mprotect asking for write+execute under a W^X policy
   | segv (a : Addr)       -- store to a page that is not writable
   deriving Repr, DecidableEq
 
@@ -84,7 +90,9 @@ def step (s : State) : Step → Except Err State
   | .mprotect p prot =>
     match s.perm p with
     | none => .error (.enomem p)
-    | some _ => .ok { s with perm := setPerm s.perm p prot }
+    | some _ =>
+      if s.denyWX && prot.w && prot.x then .error (.eacces p)
+      else .ok { s with perm := setPerm s.perm p prot }
   | .store a b =>
     match s.perm (pageOf a) with
     | some pr => if pr.w then .ok { s with mem := setByte s.mem a b } else .error (.segv a)
@@ -113,17 +121,40 @@ def copyScript (a : Addr) (data : List Byte) : List Step := copyFrom a 0 data
 def script (a : Addr) (data : List Byte) : List Step :=
   protScript a data.length RWX ++ copyScript a data ++ protScript a data.length RX
 
+/-- the script of a successful fall-back write (mwrite_prot.go:3008): rw-, copy, r-x -/
+def fallbackScript (a : Addr) (data : List Byte) : List Step :=
+  protScript a data.length RW ++ copyScript a data ++ protScript a data.length RX
+
 inductive Outcome where
-  | ok                    -- mwrite_amd64.go:35 `return nil`
-  | fallback (e : Err)    -- :24 RWX refused → :26 `writeTo` of mwrite_prot.go (outside the model)
-  | fault (e : Err)       -- :31 the copy hit a non-writable page (SIGSEGV; the process dies)
-  | panicRX (e : Err)     -- :32–33 restoring RX failed → `errorDetail` panics
+  | ok                       -- mwrite_amd64.go:35 `return nil`
+  | okFallback (e : Err)     -- :24 RWX refused (e), :26 fall-back `writeTo` of mwrite_prot.go succeeded → `return nil`
+  | panicFallback (e : Err)  -- the fall-back's own mprotect failed → mwrite_prot.go:3015/3022 `panic`
+  | fault (e : Err)          -- the copy hit a non-writable page (SIGSEGV; the process dies)
+  | panicRX (e : Err)        -- :32–33 restoring RX failed → `errorDetail` panics
   deriving Repr, DecidableEq
+
+/-- `WriteTo` returned nil -/
+def Outcome.returned : Outcome → Bool
+  | .ok => true
+  | .okFallback _ => true
+  | _ => false
+
+/-- mwrite_prot.go:3008 `writeTo(addr, data)` — the fall-back; `e0` is the error of the refused RWX request -/
+def fallbackWrite (a : Addr) (data : List Byte) (e0 : Err) (s : State) : State × Outcome :=
+  match run s (protScript a data.length RW) with           -- :3012–3017
+  | (s1, some e) => (s1, .panicFallback e)
+  | (s1, none) =>
+    match run s1 (copyScript a data) with                  -- :3018
+    | (s2, some e) => (s2, .fault e)
+    | (s2, none) =>
+      match run s2 (protScript a data.length RX) with      -- :3019–3024
+      | (s3, some e) => (s3, .panicFallback e)
+      | (s3, none) => (s3, .okFallback e0)
 
 /-- mwrite_amd64.go:19 `WriteTo(addr, data)` -/
 def writeTo (a : Addr) (data : List Byte) (s : State) : State × Outcome :=
   match run s (protScript a data.length RWX) with          -- :24
-  | (s1, some e) => (s1, .fallback e)                      -- :26
+  | (s1, some e) => fallbackWrite a data e s1              -- :26
   | (s1, none) =>
     match run s1 (copyScript a data) with                  -- :31
     | (s2, some e) => (s2, .fault e)
@@ -163,11 +194,11 @@ def install (origin to : Addr) (funcSize : Nat) (tramp : Option (Addr × Nat × 
       (s1, .done o)
     | some (t, tsize, fix) =>
       if trampolineAccepts jd.length tsize fix.length then
-        match writeTo t fix s with                                     -- fix_origin_amd64.go:83
-        | (s1, .ok) =>
+        let (s1, o1) := writeTo t fix s                                -- fix_origin_amd64.go:83
+        if o1.returned then
           let (s2, o) := writeTo origin jd s1                          -- guard.go:28
           (s2, .done o)
-        | (s1, o) => (s1, .done o)
+        else (s1, .done o1)
       else (s, .refused "trampoline-too-small")                        -- fix_origin_amd64.go:39 / :77
 
 /-- memory.go:30 `RawRead(a, n)`: a private copy of `n` bytes starting at `a` -/
